@@ -33,6 +33,7 @@ import (
 	"strings"
 	"sync"
 	"sync/atomic"
+	"time"
 
 	"github.com/polynetwork/poly/common"
 	"github.com/polynetwork/poly/core/types"
@@ -65,6 +66,9 @@ type state struct {
 	Post     int          // steps taken since first release
 	View     uint64       // fee: model of the fee view (round counter)
 	Epoch    bool         // epoch change already used on this path
+	Quits    int          // in-view status changes: validators that called quitNode (QuitingStatus until the next commitDpos)
+	Cand     int          // candidate newValK+3: 0 none, 1 approved (CandidateStatus, not yet consensus), 2 committed into the consensus set
+	Commits  int          // commitDpos executed after in-view changes
 	White    bool         // blocked: target already white-listed
 	Depth    int
 }
@@ -84,7 +88,7 @@ func (s state) key() string {
 	sort.Strings(v)
 	sort.Strings(c)
 	return fmt.Sprintf("%s|%s|%v|%d|%d|%d|%v|%v|%s", strings.Join(v, ","), strings.Join(c, ","), s.Released, s.Releases, s.Post,
-		s.View, s.Epoch, s.White, s.D.String())
+		s.View, s.Epoch, s.White, fmt.Sprint(s.Quits, s.Cand, s.Commits)+"|"+s.D.String())
 }
 
 func cp(m map[int]bool) map[int]bool {
@@ -225,6 +229,12 @@ func mechs() []mech {
 //
 // The epoch change is inserted at every position of a sequence, BEFORE and AFTER the release; exploration goes on
 // until two votes past the release (epoch changes and WhiteChain do not count as steps).
+//
+// Status changes INSIDE the current view (no view switch) are separate events, at every position before and after
+// the release: quitNode by a validator that has / has not voted (QuitingStatus until the next commitDpos; quick one, thorough two;
+// node_manager requires more than 4 remaining peers), approval of a candidate (CandidateStatus), and a later
+// commitDpos. Reference: "current consensus validators" = ConsensusStatus peers of the current view, so a quitting
+// validator leaves the set (and N) immediately and a candidate joins it only at commitDpos.
 func epochChange(w *ccm.W, vals []*polyenv.Acct, mode string, height uint32) error {
 	ser := func(f func(*common.ZeroCopySink)) []byte { s := common.NewZeroCopySink(nil); f(s); return s.Bytes() }
 	for k := 0; k < joiners(mode); k++ {
@@ -268,6 +278,25 @@ func joiners(mode string) int {
 		return 3
 	}
 	return 0
+}
+
+const candK = newValK + 3
+
+func btoi(b bool) int {
+	if b {
+		return 1
+	}
+	return 0
+}
+
+// pick: lowest-index current validator that has (voted=true) / has not (voted=false) voted; -1 if none.
+func pick(s state, voted bool) int {
+	for _, i := range keys(s.Cur) {
+		if s.Voters[i] == voted {
+			return i
+		}
+	}
+	return -1
 }
 
 func curAccts(cur map[int]bool) []*polyenv.Acct {
@@ -348,17 +377,21 @@ func main() {
 		"rule":       "release/emit exactly once, in the tx of the first current-validator vote after which |voters ∩ current consensus| >= ceil(2N/3); outsiders never leave a trace",
 		"mechanisms": []string{"vote router", "ripple router", "UpdateFee", "AddSignature", "vote router with blacklisted target (failed release)"},
 		"N_range":    fmt.Sprintf("1..%d", nmax), "epoch_change_modes": []string{"join N>=1", "join3 N<=6", "replace N>=4", "shrink N>=5"}, "epoch_change_positions": "every position before and after the release",
-		"epoch_change_scope": map[bool]string{true: "every mechanism, every N", false: "every mechanism at N=4 (incl. join3), vote router and AddSignature also at N=5"}[r.Thorough()],
+		"in_view_status_changes": map[bool]string{false: "vote, fee, sig at N=5: one quitNode (voter / non-voter) or one candidate approval, optional later commitDpos, at every position",
+			true: "every mechanism, N=4..7: one quitNode or one candidate approval; N=5,6: up to two quitNode and a candidate approval combined; optional later commitDpos; at every position"}[r.Thorough()],
+		"epoch_change_scope": map[bool]string{true: "every mechanism, every N", false: "vote, ripple, fee, sig at N=4 (incl. join3), AddSignature also at N=5"}[r.Thorough()],
 		"states":             total.States, "transitions": total.Transitions, "traces_validated_against_impl": total.Transitions, "max_depth": total.MaxDepth,
 	})
 }
 
+var t0 = time.Now()
+
 func explore(r *ev.Run, j job, pool *ccm.Worlds, epochBuilt *int64) mc.Stats {
 	m, n, vals := j.m, j.n, j.vals
 	epochModes := []string{}
-	// quick tier: epoch changes for every mechanism at N = 4 and for the vote router and AddSignature at N = 5;
+	// quick tier: epoch changes for vote/ripple/fee/sig at N = 4 and for AddSignature at N = 5;
 	// thorough: every mechanism and N (join3 for N <= 6)
-	if r.Thorough() || n == 4 || ((m.name == "vote" || m.name == "sig") && n == 5) {
+	if r.Thorough() || (n == 4 && m.name != "blocked") || (m.name == "sig" && n == 5) {
 		epochModes = append(epochModes, "join")
 		if n <= 6 && (r.Thorough() || n == 4) {
 			epochModes = append(epochModes, "join3")
@@ -370,11 +403,19 @@ func explore(r *ev.Run, j job, pool *ccm.Worlds, epochBuilt *int64) mc.Stats {
 			epochModes = append(epochModes, "shrink")
 		}
 	}
+	// in-view status changes (quitNode / approved candidate / later commitDpos): quick N = 5, 6; thorough N >= 4
+	// quick: N = 5, at most one quitNode, quit and candidate not combined on one path; thorough: N = 4..7, and at
+	// N = 5, 6 two quits, combined with the candidate
+	inView := (r.Thorough() && n >= 4 && n <= 7) || (n == 5 && (m.name == "vote" || m.name == "fee" || m.name == "sig"))
+	maxQuits, combine := 1, false
+	if r.Thorough() && (n == 5 || n == 6) {
+		maxQuits, combine = 2, true
+	}
 	step := func(s state, e string, w *ccm.W) state {
 		nx := s
 		nx.Depth = s.Depth + 1
 		nx.Voters, nx.Cur = cp(s.Voters), cp(s.Cur)
-		if s.Releases > 0 && e != "white" && !strings.HasPrefix(e, "epoch-") {
+		if s.Releases > 0 && e[0] == 'v' || e == "stale" && s.Releases > 0 {
 			nx.Post = s.Post + 1
 		}
 		switch {
@@ -396,6 +437,51 @@ func explore(r *ev.Run, j job, pool *ccm.Worlds, epochBuilt *int64) mc.Stats {
 			if res.OK || nx.D.String() != s.D.String() {
 				r.Violation("C25/"+m.name+"/vote-for-closed-round-accepted", map[string]any{"mechanism": m.name, "N": n, "view": s.View, "tx_ok": res.OK})
 			}
+			return nx
+		case strings.HasPrefix(e, "quit"):
+			var who int
+			fmt.Sscanf(e, "quit%d", &who)
+			qa := acct(who)
+			qp := &node_manager.PeerParam{PeerPubkey: qa.PubHex, Address: qa.Addr}
+			qs := common.NewZeroCopySink(nil)
+			qp.Serialization(qs)
+			if res := w.Exec(polyenv.Tx(utils.NodeManagerContractAddress, node_manager.QUIT_NODE, qs.Bytes(), 7100, polyenv.Single(qa)), 2, 1000); !res.OK {
+				r.HarnessError("quitNode(%d) N=%d failed: %v", who, n, res.Err)
+			}
+			delete(nx.Cur, who) // QuitingStatus is not ConsensusStatus: no longer a current consensus validator
+			nx.Quits++
+			nx.D = w.Dump()
+			r.Class("in-view:quitNode")
+			return nx
+		case e == "cand":
+			ca := acct(candK)
+			ser := func(f func(*common.ZeroCopySink)) []byte { s := common.NewZeroCopySink(nil); f(s); return s.Bytes() }
+			rp := &node_manager.RegisterPeerParam{PeerPubkey: ca.PubHex, Address: ca.Addr}
+			if res := w.Exec(polyenv.Tx(utils.NodeManagerContractAddress, node_manager.REGISTER_CANDIDATE, ser(rp.Serialization), 7101, polyenv.Single(ca)), 2, 1000); !res.OK {
+				r.HarnessError("registerCandidate failed: %v", res.Err)
+			}
+			cur := curAccts(s.Cur)
+			for i := 0; i < ccm.Quorum(len(cur)); i++ {
+				ap := &node_manager.PeerParam{PeerPubkey: ca.PubHex, Address: cur[i].Addr}
+				if res := w.Exec(polyenv.Tx(utils.NodeManagerContractAddress, node_manager.APPROVE_CANDIDATE, ser(ap.Serialization), 7102, polyenv.Single(cur[i])), 2, 1000); !res.OK {
+					r.HarnessError("approveCandidate failed: %v", res.Err)
+				}
+			}
+			nx.Cand = 1 // CandidateStatus: not a consensus validator before the next commitDpos
+			nx.D = w.Dump()
+			r.Class("in-view:candidate-approved")
+			return nx
+		case e == "commit":
+			if res := w.Exec(polyenv.Tx(utils.NodeManagerContractAddress, node_manager.COMMIT_DPOS, nil, 7103, polyenv.Multi(curAccts(s.Cur))), 3, 1000); !res.OK {
+				r.HarnessError("commitDpos after in-view changes failed: %v", res.Err)
+			}
+			if s.Cand == 1 {
+				nx.Cand = 2
+				nx.Cur[candK] = true
+			}
+			nx.Commits++
+			nx.D = w.Dump()
+			r.Class("in-view:commitDpos")
 			return nx
 		case strings.HasPrefix(e, "epoch-"):
 			mode := strings.TrimPrefix(e, "epoch-")
@@ -508,7 +594,7 @@ func explore(r *ev.Run, j job, pool *ccm.Worlds, epochBuilt *int64) mc.Stats {
 		return nx
 	}
 	return mc.BFS(mc.Config[state]{
-		Init: []state{j.init}, Workers: 4, Stop: r.Expired, MaxDepth: 3*n + 10,
+		Init: []state{j.init}, Workers: 4, Stop: func() bool { return r.Expired() || time.Since(t0) > 25*time.Minute }, MaxDepth: 3*n + 12,
 		Key: func(s state) string { return s.key() },
 		Events: func(s state, depth int) []string {
 			if s.Post >= 2 {
@@ -530,7 +616,28 @@ func explore(r *ev.Run, j job, pool *ccm.Worlds, epochBuilt *int64) mc.Stats {
 			if m.rounds && s.View > 0 {
 				e = append(e, "stale")
 			}
-			if !s.Epoch {
+			if inView && !s.Epoch {
+				// status changes INSIDE the current view (no view switch): quitNode by the lowest current validator
+				// that has / has not voted; approval of a candidate; later commitDpos
+				if s.Quits < maxQuits && len(s.Cur)+btoi(s.Cand == 1) > 4 && s.Commits == 0 && (combine || s.Cand == 0) {
+					if v := pick(s, true); v >= 0 {
+						e = append(e, fmt.Sprintf("quit%d", v))
+					}
+					if v := pick(s, false); v >= 0 {
+						e = append(e, fmt.Sprintf("quit%d", v))
+					}
+				}
+				if s.Cand == 0 && s.Commits == 0 && (combine || s.Quits == 0) {
+					e = append(e, "cand")
+				}
+				if s.Cand >= 1 {
+					e = append(e, fmt.Sprintf("v%d", candK))
+				}
+				if (s.Quits > 0 || s.Cand == 1) && s.Commits == 0 {
+					e = append(e, "commit")
+				}
+			}
+			if !s.Epoch && s.Quits == 0 && s.Cand == 0 {
 				for _, em := range epochModes {
 					e = append(e, "epoch-"+em)
 				}
